@@ -26,6 +26,9 @@ def show(v):
 
 def variant_calls(variant, bs, obs):
     opts = {"name": "h", "help": "h", "buckets": [F(x) for x in bs]}
+    if variant in ("vec_child", "local", "scraped"):
+        # options built in another order of the builder methods (buckets first, then namespace, subsystem, a constant label)
+        opts.update({"buckets_first": True, "ns": "n", "sub": "s", "const": [["c", "v"]]})
     if variant == "histogram":
         calls = [{"op": "histogram", "as": "h", "opts": opts}]
         calls += [{"op": "observe", "obj": "h", "v": F(x)} for x in obs]
